@@ -136,6 +136,7 @@ theorem TreeOK.pend {skip : List Bytes} {fs : FS} {p : Bytes} {x : Inode} (h : T
       · exact h.inv.inos n hn
       · exact hxok
   · rw [pend_get]; simp [hpd, h.root]
+  · rw [pend_ino_lt fs p x (h.named _ 0 h.root).2]; exact h.rootDir
   · intro i
     rcases Nat.lt_trichotomy i fs.inodes.length with hlt | heq | hgt
     · rw [pend_ino_lt fs p x hlt]; exact h.plain i
@@ -209,6 +210,7 @@ theorem TreeOK.connect {skip : List Bytes} {fs : FS} {p : Bytes} {i j : Nat} {cs
   constructor
   · exact h.inv.linkChild j i
   · rw [hget]; exact h.root
+  · rw [hkind]; exact h.rootDir
   · intro t; rw [hkind]; exact h.plain t
   · intro k t hk
     rw [hget] at hk
